@@ -129,7 +129,7 @@ def get_facts(repo="/repo", profile="dev", crate="neurons", quiet=False, slot=""
     return f
 
 
-def _prune(keep=400):
+def _prune(keep=1200):
     base = os.path.join(CACHE, "facts")
     ds = []
     for n in os.listdir(base):
